@@ -123,16 +123,16 @@ func (o *c10Observer) Placement(host string) (c10Placement, bool) {
 }
 
 type c10Req struct {
-	Idx        int
-	Host       string
-	Delta      int64 // args.Time - now at send
-	Time       uint32
-	Historic   bool
-	Spare      bool
+	Idx                        int
+	Host                       string
+	Delta                      int64 // args.Time - now at send
+	Time                       uint32
+	Historic                   bool
+	Spare                      bool
 	OldestBefore, NewestBefore uint32
 	OldestAfter, NewestAfter   uint32
-	Res        aggengSendResult
-	Answered   bool
+	Res                        aggengSendResult
+	Answered                   bool
 }
 
 // Time - now: the whole range -10..+10, but two thirds of the requests near the recent window
